@@ -527,6 +527,19 @@ func (g *gctx) genFile(fi int) *JFile {
 		if t.Bool(1, 4) {
 			m.Annotations = append(m.Annotations, "@Override")
 		}
+		if t.Bool(1, 6) {
+			m.Annotations = append(m.Annotations, g.pick([]string{"@Transactional(readOnly = true)", "@Nullable", "@CheckForNull", "@Deprecated", "@SuppressWarnings(\"unchecked\")", "@Cacheable(value = \"c\", key = \"k\")"}))
+		}
+		if !m.NoBody && t.Bool(1, 8) {
+			m.Throws = g.pick([]string{"Exception", "IllegalStateException, Exception"})
+		}
+		if len(m.Params) > 0 && t.Bool(1, 6) {
+			k := t.Pick(len(m.Params))
+			if !strings.Contains(m.Params[k].Type, "<") {
+				m.Params[k].Type += "[]"
+				locals[m.Params[k].Name] = m.Params[k].Type
+			}
+		}
 		// Spring handler roles
 		if g.o.Controllers && f.Kind == "class" && (isController || len(f.Annotations) > 0 && f.Annotations[0] == "@Component") && t.Bool(2, 3) {
 			path := "/" + mn
@@ -751,7 +764,7 @@ func (g *gctx) genBody(fi int, fields, locals map[string]string, need func(strin
 	var out []string
 	// locals declared here are visible to later statements of this body
 	for i := 0; i < n; i++ {
-		switch k := t.Pick(16); {
+		switch k := t.Pick(18); {
 		case k <= 3: // call statement
 			out = append(out, g.callExpr(fi, fields, locals, need)+";")
 		case k <= 5: // local declaration with creation or call
@@ -836,6 +849,38 @@ func (g *gctx) genBody(fi int, fields, locals map[string]string, need func(strin
 			out = append(out, "        "+g.callExpr(fi, fields, locals, need)+";")
 			out = append(out, "    }")
 			out = append(out, "};")
+		case k == 14 && depth < 2: // enhanced for over a collection
+			typ, imp := g.typeRefClass(fi)
+			need(imp)
+			need("java.util.List")
+			out = append(out, fmt.Sprintf("for (%s each : (List<%s>) null) {", typ, typ))
+			inner := copyMap(locals)
+			inner["each"] = typ
+			out = append(out, indent(g.genBody(fi, fields, inner, need, depth+1, 2))...)
+			out = append(out, "}")
+		case k == 15: // assorted expression shapes
+			switch t.Pick(6) {
+			case 0:
+				out = append(out, "String s"+fmt.Sprintf("%d", depth)+" = \"a\" + "+g.callExpr(fi, fields, locals, need)+";")
+			case 1:
+				out = append(out, "Object o"+fmt.Sprintf("%d", depth)+" = true ? "+g.callExpr(fi, fields, locals, need)+" : null;")
+			case 2:
+				typ, imp := g.typeRefClass(fi)
+				need(imp)
+				out = append(out, fmt.Sprintf("%s c%d = (%s) %s;", typ, depth, typ, g.callExpr(fi, fields, locals, need)))
+			case 3:
+				out = append(out, "super."+g.pick(methodNames)+"();")
+			case 4:
+				typ, imp := g.typeRefClass(fi)
+				need(imp)
+				out = append(out, fmt.Sprintf("%s[] arr%d = new %s[2];", typ, depth, typ))
+			default:
+				out = append(out, "try {")
+				out = append(out, "    "+g.callExpr(fi, fields, locals, need)+";")
+				out = append(out, "} finally {")
+				out = append(out, "    "+g.callExpr(fi, fields, locals, need)+";")
+				out = append(out, "}")
+			}
 		default:
 			out = append(out, g.callExpr(fi, fields, locals, need)+";")
 		}
